@@ -210,6 +210,12 @@ func runVec(rep *Report, v *Vec, rng *rand.Rand) {
 		typ = eventlogger.EventType("t\"y\\p\ne é\x01<&>" + rstr(rng, 2))
 	}
 	created := time.Date(2024, 1, 2, 3, 4, 5, rng.Intn(1e9), time.FixedZone("x", 3600*(rng.Intn(5)-2)))
+	switch rng.Intn(8) {
+	case 0:
+		created = time.Time{} // an event nobody stamped (a Broker whose clock is stopped at the zero time): the creation time is what it is
+	case 1:
+		created = time.Unix(0, 0).UTC()
+	}
 	e := &eventlogger.Event{Type: typ, CreatedAt: created, Payload: payload, Formatted: map[string][]byte{}}
 	if rng.Intn(2) == 0 {
 		e.FormattedAs("other", []byte("untouched"))
